@@ -96,13 +96,18 @@ def gen_versions(rng):
     vn += nauxb
     # symbols: undefined ones take needed versions, defined ones take defined versions
     nsym = rng.choice([1, 2, 4, 5, 9, 13])
+    var = getattr(rng, 'variant', None)
+    # a hidden versioned entry directly in front of a global and a local one (a row printer must not carry the mark along)
+    hidden_run = var is not None and var % 4 == 2 and ndef
+    if hidden_run:
+        nsym = max(nsym, 5)
     syms = [elfgen.sym_pack(E, is64, 0, 0, 0, 0, 0, 0)]
     vers = [0]
     need_idx = [a['other'] for n in needs for a in n['aux']]
     def_idx = [p['ndx'] for p in defs[1:]]
     for i in range(1, nsym):
         name = rng.choice(SYMS)
-        undefined = rng.random() < 0.5
+        undefined = rng.random() < 0.5 and not (hidden_run and i <= 3)
         if undefined:
             syms.append(elfgen.sym_pack(E, is64, so[name], 0, 0, 0x12, 0, 0))
             v = rng.choice(need_idx) if need_idx and rng.random() < 0.8 else rng.choice([0, 1])
@@ -113,6 +118,8 @@ def gen_versions(rng):
                 v |= 0x8000
             if need_idx and rng.random() < 0.2:
                 v = rng.choice(need_idx)        # a copy-relocated object: defined here, versioned by the library it comes from
+            if hidden_run and i <= 3:
+                v = (rng.choice(def_idx) | 0x8000, 1, 0)[i - 1]
         vers.append(v)
     versym = b''.join(struct.pack(E + 'H', v) for v in vers)
     symsz = 24 if is64 else 16
@@ -204,6 +211,9 @@ def gen_notes_file(rng):
     le = rng.random() < 0.7
     E = '<' if le else '>'
     machine = rng.choice([62, 183]) if cls == 64 else rng.choice([3, 40])
+    var = getattr(rng, 'variant', None)
+    if var is not None and var % 2 == 0 and machine == 40:
+        machine = 3                     # every other file carries a property note, which ARM files do not
 
     def note(owner, typ, desc, al=4):
         name = owner.encode() + b'\0'
@@ -237,14 +247,22 @@ def gen_notes_file(rng):
         secs.append(elfgen.Sec('.note.%s%d' % (parts[0][0], i), 7, flags=2, data=data, align=4, addr=addr))
         addr += 0x100
         shape.append([p[0] for p in parts])
-    if machine in (62, 183, 3) and rng.random() < 0.6:
+    if machine in (62, 183, 3) and (rng.random() < 0.6 if var is None else var % 2 == 0):
         W = 'Q' if cls == 64 else 'I'
         pal = 8 if cls == 64 else 4
         props = b''
         kinds = []
         for j in range(rng.choice([1, 2, 3])):
-            pk = rng.choice(['stack', 'nocopy', 'feat'])
-            if pk == 'stack':
+            pk = rng.choice(['stack', 'nocopy', 'feat', 'bound'])
+            if var is not None and j == 0:
+                pk = 'bound'
+            if pk == 'bound':
+                # the ends of the processor and application ranges and their neighbours
+                bounds = [0xc0000000 + 0x7fff, 0xdfffffff, 0xe0000000, 0xffffffff, 0xbfffffff, 0xdffffffe, 0xe0000001, 0xfffffffe, 3]
+                pt = bounds[((var // 2 if var is not None else rng.randrange(99)) + j) % len(bounds)]
+                pd = bytes(rng.getrandbits(8) for _ in range(rng.choice([0, 4, 8])))
+                pk = 'bound:%#x' % pt
+            elif pk == 'stack':
                 pd = struct.pack(E + W, rng.choice([0x1000, 0x800000]))
                 pt = 1
             elif pk == 'nocopy':
@@ -278,8 +296,11 @@ def gen_symtab_file(rng):
              'weak_fn', 'tls_var', 'common_blk', 'ifunc_resolver', 'with.dots.and$dollar', 'Z3fooILi3EEvv', 'esc\x1bname', 'us\x1f\x1c']
     tab, offs = elfgen.strtab([n.encode() for n in names])
     empty_at = len(tab) - 1          # the terminator of the last string: a non-zero offset of an empty name
-    gnu = rng.random() < 0.3            # an object with the GNU extensions STT_GNU_IFUNC / STB_GNU_UNIQUE (marked by the GNU OS ABI)
-    types = [0, 1, 2, 3, 4, 5, 6] + ([10, 10] if gnu else [])
+    # an object with the GNU extensions STT_GNU_IFUNC / STB_GNU_UNIQUE, marked by the GNU OS ABI; the FreeBSD OS ABI gives
+    # type 10 the same meaning (binutils get_symbol_type) but has no unique binding
+    ext = (None, 3, None, 9, None, 3)[getattr(rng, 'variant', rng.randrange(6)) % 6]
+    gnu = ext == 3
+    types = [0, 1, 2, 3, 4, 5, 6] + ([10, 10] if ext else [])
     nloc = rng.choice([1, 2, 4, 7])
     nglob = rng.choice([0, 1, 3, 8, 20])
     syms = [elfgen.sym_pack(E, is64, 0, 0, 0, 0, 0, 0)]
@@ -314,9 +335,9 @@ def gen_symtab_file(rng):
             elfgen.Sec('.symtab', 2, data=b''.join(syms), link='.strtab', info=1 + nloc, entsize=24 if is64 else 16, align=8),
             elfgen.Sec('.strtab', 3, data=tab)]
     # STT_GNU_IFUNC / STB_GNU_UNIQUE are GNU extensions: assemblers mark such files with the GNU OS ABI
-    osabi = 3 if gnu else 0
+    osabi = ext or 0
     img, info = elfgen.build(cls=cls, le=le, machine=machine, etype=1, osabi=osabi, sections=secs)
-    return img, dict(cls=cls, le=le, machine=machine, nloc=nloc, nglob=nglob, kinds=sorted(set(shape))[:12])
+    return img, dict(cls=cls, le=le, machine=machine, osabi=osabi, nloc=nloc, nglob=nglob, kinds=sorted(set(shape))[:12])
 
 
 RELOC_MACH = {  # machine: (class, little-endian, RELA?, enum name)
@@ -438,10 +459,16 @@ def gen_layout_file(rng):
     tls = mode in (1, 2)
     tls_last = mode == 2                   # .data first, then the TLS sections, then .bss at the address of .tbss
     rw = []
+    # lld's layout of read-only-after-relocation data: a segment of its own that ends in the NOBITS .bss.rel.ro, all of it
+    # inside PT_GNU_RELRO (a NOBITS section in a segment that is neither PT_LOAD nor PT_TLS)
+    relro_bss = rng.random() < 0.3 if v is None else (v >> 3) % 2 == 1
+    if relro_bss:
+        rw.append(('.init_array', 14, 3, 0, 8, 'rr', blob(8 if not is64 else 16)))
+        rw.append(('.bss.rel.ro', 8, 3, rng.choice([8, 24, 64]), 8, 'rr', b''))
     if tls:
         rw.append(('.tdata', 1, 0x403, 0, 8, 'rw', blob(rng.choice([4, 8, 24]))))
         rw.append(('.tbss', 8, 0x403, rng.choice([4, 16, 64]), 8, 'rw', b''))
-    if rng.random() < 0.6 and not empty_rw and not tls_last:
+    if rng.random() < 0.6 and not empty_rw and not tls_last and not relro_bss:
         rw.append(('.init_array', 14, 3, 0, 8, 'rw', blob(8 if not is64 else 16)))
     data = ('.data', 1, 3, 0, rng.choice([4, 8, 32]), 'rw', blob(0 if empty_rw else rng.choice([4, 40, 200])))
     if tls_last:
@@ -482,6 +509,8 @@ def gen_layout_file(rng):
             mem_extra += size
             sp = spans.setdefault(group, [pos, pos, 0])
             sp[2] = mem_extra
+            if name == '.bss.rel.ro':
+                spans['relro'][2] = size
             last_group = group
             continue
         addr = base + pos if group is not None else 0
@@ -508,7 +537,7 @@ def gen_layout_file(rng):
         a, b, _ = spans['interp']
         segs.append(elfgen.Seg(type=3, flags=4, offset=a, vaddr=base + a, filesz=b - a, align=1))
     first = True
-    for group, fl in (('ro', 4), ('rx', 5), ('rw', 6)):
+    for group, fl in (('ro', 4), ('rx', 5), ('rr', 6), ('rw', 6)):
         if group in spans:
             a, b, extra = spans[group]
             if first:
@@ -524,9 +553,9 @@ def gen_layout_file(rng):
         segs.append(elfgen.Seg(type=7, flags=4, offset=a, vaddr=base + a, filesz=b - a, memsz=b - a + extra, align=8))
     if rng.random() < 0.7:
         segs.append(elfgen.Seg(type=0x6474e551, flags=rng.choice([6, 7]), offset=0, vaddr=0, filesz=0, memsz=0, align=16))
-    if 'relro' in spans and rng.random() < 0.7:
-        a, b, _ = spans['relro']
-        segs.append(elfgen.Seg(type=0x6474e552, flags=4, offset=a, vaddr=base + a, filesz=b - a, align=1))
+    if 'relro' in spans and (rng.random() < 0.7 or relro_bss):
+        a, b, extra = spans['relro']
+        segs.append(elfgen.Seg(type=0x6474e552, flags=4, offset=a, vaddr=base + a, filesz=b - a, memsz=b - a + extra, align=1))
     # segment types without a name: the OS and processor ranges (and their limits) are shown as LOOS+n / LOPROC+n
     if len(segs) < nseg_max and rng.random() < 0.5:
         segs.append(elfgen.Seg(type=rng.choice([0x60000000, 0x60001234, 0x6fffffff, 0x70000000 + 0x7777, 0x7fffffff]), flags=4, offset=0, vaddr=0,
@@ -566,8 +595,10 @@ def gen_dump_file(rng):
     target = rng.choice([1, 5])
     rel = struct.pack(E + ('QQq' if cls == 64 else 'IIi'), 0, 0, 0)
     secs.append(elfgen.Sec('.rela.text', 4, flags=0x40, data=rel, link=0, info=target, entsize=24 if cls == 64 else 12, align=8))
-    img, info = elfgen.build(cls=cls, le=le, machine=machine, etype=1, sections=secs)
-    return img, dict(cls=cls, text=len(text), strings=len(strs))
+    # linked files keep relocation sections too (.rela.plt, ld --emit-relocs): the note does not depend on the file type
+    etype = (1, 3, 1, 2)[getattr(rng, 'variant', rng.randrange(4)) % 4]
+    img, info = elfgen.build(cls=cls, le=le, machine=machine, etype=etype, sections=secs)
+    return img, dict(cls=cls, text=len(text), strings=len(strs), etype=etype, reloc_target=target)
 
 
 def gen_sections_file(rng):
